@@ -82,6 +82,20 @@ CLAIMS = {
    note="Input-refusal half proved; storage-fault half (ENOSPC/EIO/short writes/failed rollback) decided by fault enumeration "
         "against the implementation, not by a theorem. Trusted: Lean kernel, hand model, FS shim.",
    design="§3 C03"),
+ "C18": dict(
+   engine="config",
+   technique="Lean 4 proof about a model REGENERATED from config.rs by a translator on every run + cross-product correspondence against the real loader",
+   text="translators/xlate_config.py parses the body of KyroDbConfig::validate in the current source (let/ensure!/bail!/if/if-let, "
+        "&& || ! matches! comparisons) into lean/KyroModel/Config/Generated.lean: validate : Atoms -> Bool with named safety atoms "
+        "and opaque atoms for everything else. Theorem C18_validate_sound: validate a = true -> Safe a, for ALL values of every "
+        "other setting, re-proved against the regenerated definition on every run; C18_unknown_environment_rejected; "
+        "C18_loopback_literals. Second tie: ~9.4k rows (quick; exhaustive in thorough) of the cross product x delivery (TOML, YAML, "
+        "env overrides on a safe base file, env only) through the real KyroDbConfig::load; oracle accept => Safe(row); generated "
+        "model vs loader row by row.",
+   note="Trusted: Lean kernel, the translator (fails closed, cross-checked by the correspondence), the hand-written Safe predicate. "
+        "Not modelled: serde/config-crate parsing, the normalisation chain of is_loopback_host (host table vs python classification), "
+        "the server's exit status.",
+   design="§3 C18"),
 }
 
 NOT_APPLICABLE = {
